@@ -133,8 +133,9 @@ fn exec_product(t: &mut Tape, st: &mut Stats) -> Result<(), String> {
         st.class("skipped_invalid_method_version");
         return Ok(());
     }
-    if framing == 2 && !resp_v11 {
-        st.class("skipped_chunked_on_http10");
+    if framing == 2 && !resp_v11 && (300..400).contains(&status) {
+        // a 3xx whose only framing field does not frame: body or no body is left open (C06)
+        st.class("skipped_chunked_on_http10_redirect");
         return Ok(());
     }
     let expect = outcome != 0;
@@ -184,9 +185,15 @@ fn exec_product(t: &mut Tape, st: &mut Stats) -> Result<(), String> {
         1 => fields.push(Field::new("Content-Length", "0")),
         2 => {
             fields.push(Field::new("Transfer-Encoding", "chunked"));
-            if !nobody {
+            if !nobody && resp_v11 {
                 payload = b"hello".to_vec();
                 body_wire = b"5\r\nhello\r\n0\r\n\r\n".to_vec();
+            } else if !nobody {
+                // HTTP/1.0 knows no transfer codings: the body is whatever follows until the connection closes - the fifth condition
+                st.class("chunked_declared_on_an_http10_response");
+                body_wire = b"5\r\nhello\r\n0\r\n\r\n".to_vec();
+                payload = body_wire.clone();
+                close_delimited = true;
             }
         }
         _ => {
@@ -378,8 +385,7 @@ pub static DEF: PropDef = PropDef {
     rule: "exhaustive product 'product': request version {1.1, 1.0} x request Connection {absent, close, keep-alive, [keep-alive, close]} x 9 \
 methods x Expect outcome {none, 100 received, timeout, refused by a bare response, refused with fields, late 100} x response version x \
 status {200, 204, 304, 301 + Location, 404, 500, 101} x framing {Content-Length 5, Content-Length 0, chunked, none} x response Connection \
-{absent, close, keep-alive, [keep-alive, close], [close, keep-alive], upgrade} = 145152 cells (invalid method/version pairs and chunked \
-on HTTP/1.0 skipped and counted), each run to Redirect and/or Cleanup. enumeration 'truncated': 3xx heads with a Connection field {none, keep-alive before / after Location, upgrade, close} \
+{absent, close, keep-alive, [keep-alive, close], [close, keep-alive], upgrade} = 145152 cells (invalid method/version pairs skipped and counted; `Transfer-Encoding: chunked` on an HTTP/1.0 response does not frame - the body is close-delimited, the fifth condition holds; only on a 3xx, where the statement leaves body or no body open, the cell is skipped), each run to Redirect and/or Cleanup. enumeration 'truncated': 3xx heads with a Connection field {none, keep-alive before / after Location, upgrade, close} \
 and a further field, cut after the Location line / before the empty line / inside a later line / one byte short (360 cells): \
 whenever the flow hands out a response for such a strict prefix (known finding K1) the verdict must be must-close. enumeration 'interim' (432 cells): \
 1..3 bare 100 responses before the final one, with and without Expect, in one piece or in 7-byte steps; the caller asks until the \
